@@ -331,6 +331,10 @@ class AST2SCFGTransformer:
         """
         for node in tree:
             self.handle_ast_node(node)
+            if isinstance(node, (ast.Return, ast.Break, ast.Continue)):
+                # Anything after a jump in the same suite is unreachable, and
+                # the jump must stay the last instruction of its block.
+                break
 
     def handle_ast_node(self, node: type[ast.AST] | ast.stmt) -> None:
         """Dispatch an AST node to handle."""
